@@ -457,6 +457,11 @@ def standard_ops(variants, files, js=(1, 3), with_faults=True, with_rm=True, tar
                 # a tool that dies half way: exit code 3, some output, and a depfile that does not parse
                 ops.append(ninja_op(j=js[-1], k=ks[0], faults={s.id: {"code": 3, "baddep": True}},
                                     label="ninja -j%d -k%d faults=%s:3+unparsable depfile" % (js[-1], ks[0], s.id)))
+                if s.deps == "gcc":
+                    # ... or does all its work and exits 0, with a directory where the depfile should be: ninja cannot read the
+                    # dependencies, so the step has failed (FAILED, no record, retried)
+                    ops.append(ninja_op(j=js[-1], k=ks[0], faults={s.id: {"code": 0, "depdir": True}},
+                                        label="ninja -j%d -k%d faults=%s:exit 0 + a directory where its depfile should be" % (js[-1], ks[0], s.id)))
                 # ... or a depfile cut off right after the target: it parses, and names no dependency
                 ops.append(ninja_op(j=js[-1], k=ks[0], faults={s.id: {"code": 1, "trimdep": True}},
                                     label="ninja -j%d -k%d faults=%s:1+truncated depfile" % (js[-1], ks[0], s.id)))
